@@ -117,6 +117,13 @@ def gen_dhcp():
                    lambda m: rust_int(m.group(1)))
     # destination choice of the reply (recvdhcp)
     rd = fn_body(mod, "recvdhcp")
+    # one packet at a time: `handle_pkt` is a plain (non-async) function that takes the pool by exclusive reference, and
+    # the service calls it with the guard of the pool mutex
+    hp_sig = bool(re.search(r"pub fn handle_pkt\(\s*pools: &mut pool::Pool,", mod)) and not re.search(r"async fn handle_pkt", mod)
+    hp_call = bool(re.search(r"let mut pool = self\.pool\.lock\(\)\.await;\s*let lockedconf = self\.conf\.read\(\)\.await;\s*reply = match handle_pkt\(\s*&mut pool,", rd or ""))
+    pool_ty = bool(re.search(r"pool: std::sync::Arc<sync::Mutex<pool::Pool>>", mod))
+    exclusive = hp_sig and hp_call and pool_ty
+    record("dhcp.handlePktExclusive", exclusive, "dhcp/mod.rs handle_pkt signature, DhcpService.pool, the call in recvdhcp", ok=exclusive)
     dst = grab("dhcp.dstChoice", rd,
                r"let\s+dst\s*=\s*if\s+(.*?)\s*\{(.*?)\}\s*else\s*\{(.*?)\}\s*;", "dhcp/mod.rs recvdhcp",
                lambda m: (re.sub(r"\s+", "", m.group(1)), re.sub(r"\s+", "", m.group(2)), re.sub(r"\s+", "", m.group(3))))
@@ -188,6 +195,10 @@ deriving DecidableEq, Repr
 
 /-- `let dst = if <cond> {{ <then> }} else {{ <else> }}` in `recvdhcp` -/
 def dstCondIsBroadcastFlag : Bool := {boolean(cond_ok)}
+
+/-- `handle_pkt` is not `async`, takes `&mut pool::Pool`, and is called with the guard of `Arc<Mutex<Pool>>`: the
+    handling of one packet — every read and write of the lease table it does — excludes every other -/
+def handlePktExclusive : Bool := {boolean(exclusive)}
 def dstThen : DstExpr := .{classify(dst[1] if dst else None)}
 def dstElse : DstExpr := .{classify(dst[2] if dst else None)}
 
